@@ -24,10 +24,10 @@
 
 enum vs_op {
     VOP_START = 0, VOP_LOCK, VOP_TRYLOCK, VOP_CWAIT, VOP_CWAKE, VOP_SIGNAL, VOP_BROADCAST, VOP_CREATE, VOP_JOIN,
-    VOP_ATOMIC, VOP_ONCE, VOP_SLEEP, VOP_YIELD, VOP_EXIT, VOP_TIMEOUT, VOP_SPURIOUS, VOP_FORCED_TIMEOUT, VOP_DATA
+    VOP_ATOMIC, VOP_ONCE, VOP_SLEEP, VOP_YIELD, VOP_EXIT, VOP_TIMEOUT, VOP_SPURIOUS, VOP_FORCED_TIMEOUT, VOP_DATA, VOP_CREATED
 };
 static const char *vs_op_name[] = {"start", "lock", "trylock", "cond-wait", "cond-wake", "signal", "broadcast", "create", "join",
-                                   "atomic", "once", "sleep", "yield", "exit", "TIMEOUT", "SPURIOUS-WAKE", "forced-timeout", "data-choice"};
+                                   "atomic", "once", "sleep", "yield", "exit", "TIMEOUT", "SPURIOUS-WAKE", "forced-timeout", "data-choice", "created"};
 
 struct vs_point { /* one decision */
     uint8_t tid;     /* thread that reached the point (running thread) */
@@ -555,6 +555,10 @@ int __wrap_pthread_create(pthread_t *thr, const pthread_attr_t *attr, void *(*fn
         return rc;
     }
     *thr = th->real;
+    /* a second point right after the creation: the new thread may run (even to completion) before the creator executes
+     * the statement that follows pthread_create - stores it makes there are not yet visible to anybody (added after a
+     * seeded change that published the thread id from the creator instead of from the thread itself) */
+    vs_yield(VOP_CREATED, id);
     return 0;
 }
 static int vs_joined[VS_MAX_THREADS];
@@ -567,7 +571,7 @@ static int vs_find_thread(pthread_t t) {
 int __wrap_pthread_join(pthread_t t, void **ret) {
     if (VS_PASS) return __real_pthread_join(t, ret);
     int id = vs_find_thread(t);
-    if (id < 0) vs_harness_error("join of unknown thread");
+    if (id < 0) return ESRCH; /* what glibc answers for an id that names no joinable thread */
     if (id == vs_me) return EDEADLK;
     vs_th[vs_me].join_target = id;
     vs_yield(VOP_JOIN, id);
